@@ -29,6 +29,8 @@ impl Search {
 
     pub fn node_searched(&mut self) {
         self.nodes_searched += 1;
+        #[cfg(walleye_verif)]
+        crate::verif_seam::work(1);
     }
 
     pub fn insert_killer_move(&mut self, ply_from_root: i32, mov: &BoardState) {
